@@ -183,6 +183,10 @@ def gen_item(ctx, run):
         irr = [x for x in lib if x['meta']['kind'] == 'irreg']
         if irr:
             e = irr[wl.randrange(len(irr))]
+    if wl.random() < 0.03:
+        big = [x for x in lib if x['meta'].get('big')]
+        if big:
+            e = big[0]
     m = e['meta']
     remote = wl.random() < 0.5
     opener = wl.choice(OPENERS_REMOTE if remote else OPENERS_LOCAL)
@@ -205,6 +209,28 @@ def gen_item(ctx, run):
             warm.append(c)
     follow = ([['text_header'], ['bin_header']] if target[0] == 'open' else [target]) + \
         [battery.gen_call(wl, m, kind) for _ in range(wl.choice([1, 1, 2]))]
+    if wl.random() < 0.12 and not m.get('big'):
+        # 'header state' items: warm-ups, target and follow-ups all drawn from the handful of call types that share
+        # the lazily built header state of a reader (cached footer arrays and their padding mode, population mask,
+        # template): tracefield read, header by ordinal (both routes), trace by ordinal
+        e2 = e
+        if m['kind'] == '3d' and wl.random() < 0.6:
+            odd = [x for x in lib if x['meta']['kind'] in ('irreg', '2d') and not x['meta'].get('big')]
+            if odd:
+                e2 = odd[wl.randrange(len(odd))]
+        e, m = e2, e2['meta']
+        ntr = m['tracecount']
+
+        def hcall():
+            i = wl.choice([ntr - 1, ntr // 2, wl.randrange(ntr), wl.randrange(ntr)])
+            f = wl.choice((m['stored'][:4] or [37]) + [37])
+            if kind == 'emulator':
+                return wl.choice([['em_attributes', f], ['em_header', i], ['em_trace', i], ['em_header', i]])
+            return wl.choice([['get_tracefield_values', f], ['gen_trace_header', i], ['gen_trace_header_all', i],
+                              ['get_trace', i], ['gen_trace_header', i]])
+        warm = [hcall() for _ in range(wl.choice([1, 1, 2]))]
+        target = hcall()
+        follow = [target, hcall()]
     policy = wl.choice(core.POLICIES)
     pre_p = wl.choice([0, 0, 0, 0, 0, 0.02])      # one item in six also pre-empts at source-line level
     return e, opener, kind, target, warm, follow, policy, remote, pre_p
@@ -477,7 +503,7 @@ def _stable(rec):
 
 def _main(tier, seed, scratch, t0):
     quick = tier == 'quick'
-    lib = filelib.build(seed, scratch, n_random=6 if quick else 60)
+    lib = filelib.build(seed, scratch, n_random=6 if quick else 60, big=True)
     ctx = {'seed': seed, 'lib': lib}
     for run in (10 ** 6, 10 ** 6 + 1, 10 ** 6 + 2):
         if _stable(one_item(ctx, run)) != _stable(one_item(ctx, run)):
